@@ -476,6 +476,20 @@ func sweepIf(r *rand.Rand, p Profile, ls ...string) []string {
 
 // GenOp produces the next op line(s) for the running history
 func (e *Exec) GenOp(r *rand.Rand, p Profile) []string {
+	ls := e.genOp(r, p)
+	if e.cacheUnknown {
+		// (the content of the cache is not a function of the history any more: no file is removed or damaged from
+		// outside in the rest of this history)
+		for _, l := range ls {
+			if strings.HasPrefix(l, "rmfile") || strings.HasPrefix(l, "corrupt") || strings.HasPrefix(l, "truncfile") {
+				return []string{"count"}
+			}
+		}
+	}
+	return ls
+}
+
+func (e *Exec) genOp(r *rand.Rand, p Profile) []string {
 	total := 0
 	keys := make([]string, 0, len(p.W))
 	for k := range p.W {
@@ -818,7 +832,15 @@ func (e *Exec) GenOp(r *rand.Rand, p Profile) []string {
 			if n < 0 {
 				n = 0
 			}
-			return []string{fmt.Sprintf("expects %d %d %d", sid, n, r.Intn(2)), fmt.Sprintf("len %d", sid), fmt.Sprintf("collect %d -1 0 1", sid)}
+			out := []string{fmt.Sprintf("expects %d %d %d", sid, n, r.Intn(2)), fmt.Sprintf("len %d", sid)}
+			if m := e.collectMode(sid, -1); m == 0 || !(e.stale(sid) || e.spec.off) {
+				// (compared as a set, or by size only once an earlier limit has picked an order-dependent subset)
+				if m == 0 {
+					m = 1
+				}
+				out = append(out, fmt.Sprintf("collect %d -1 0 %d", sid, m))
+			}
+			return out
 		}
 		return []string{fmt.Sprintf("len %d", sid)}
 	case "collect":
@@ -834,7 +856,8 @@ func (e *Exec) GenOp(r *rand.Rand, p Profile) []string {
 		if pct(r, 35) {
 			rev = 1
 		}
-		if e.collectMode(sid, lim) != 0 && e.stale(sid) {
+		if e.collectMode(sid, lim) != 0 && (e.stale(sid) || e.spec.off) {
+			// (with the harness's own map switched off -- faults, crashes -- staleness is unknown: same caution)
 			// iteration order is Go map order and some object is gone: which read fails first
 			// (and whether the limit is reached before it) is not a function of the history
 			return []string{fmt.Sprintf("len %d", sid)}
@@ -848,7 +871,7 @@ func (e *Exec) GenOp(r *rand.Rand, p Profile) []string {
 		m := 0
 		if !e.searches[sid].det {
 			m = 2
-			if e.stale(sid) {
+			if e.stale(sid) || e.spec.off {
 				return []string{fmt.Sprintf("len %d", sid)}
 			}
 		}
